@@ -291,6 +291,55 @@ func CompareDataset(path string, o *Obj, d *obs.Dataset, opt Opts) []Problem {
 					}
 				}
 			}
+			// the chunk iterator: every chunk of the extent exactly once, each with the values written there
+			if ci := d.ChunkIter; ci != nil {
+				if ci.Err != "" {
+					ps = append(ps, Problem{"chunk-iterator", path, "ChunkIterator failed on a fully written chunked dataset: " + ci.Err})
+				} else {
+					seen := map[string]bool{}
+					for k, cc := range ci.Coords {
+						key := fmt.Sprint(cc)
+						if seen[key] {
+							ps = append(ps, Problem{"chunk-iterator", path, fmt.Sprintf("chunk %v visited twice (position %d of %d, dims %v chunk %v)", cc, k, ci.Total, o.Dims, s.Chunk)})
+							break
+						}
+						seen[key] = true
+					}
+					if need := chunksOf(o.Dims, s.Chunk); len(ci.Coords) == ci.Total && need != nil && !o.Grown {
+						for _, cc := range need {
+							if !seen[fmt.Sprint(cc)] {
+								ps = append(ps, Problem{"chunk-iterator", path, fmt.Sprintf("chunk %v of the written extent never visited (%d visited, dims %v chunk %v)", cc, ci.Total, o.Dims, s.Chunk)})
+								break
+							}
+						}
+					}
+					for _, so := range ci.Chunks {
+						if so.Err == "outside the current extent" {
+							continue
+						}
+						if so.Err != "" {
+							ps = append(ps, Problem{"chunk-iterator", path, fmt.Sprintf("Chunk() at %v failed: %s", so.Sel.Start, so.Err)})
+							break
+						}
+						idx := so.Sel.Indices(o.Dims)
+						if len(idx) != len(so.Bits) {
+							ps = append(ps, Problem{"chunk-iterator", path, fmt.Sprintf("Chunk() at %v returned %d elements, the chunk holds %d inside dims %v", so.Sel.Start, len(so.Bits), len(idx), o.Dims)})
+							break
+						}
+						mismatch := false
+						for i, ix := range idx {
+							if ix >= len(want) || so.Bits[i] != want[ix] {
+								ps = append(ps, Problem{"chunk-iterator", path, fmt.Sprintf("Chunk() at %v (dims %v chunk %v): element %d = %v, written %v", so.Sel.Start, o.Dims, s.Chunk, i, math.Float64frombits(so.Bits[i]), math.Float64frombits(want[ix]))})
+								mismatch = true
+								break
+							}
+						}
+						if mismatch {
+							break
+						}
+					}
+				}
+			}
 		} else if d.ReadErr == "" {
 			ps = append(ps, Problem{"read-unsupported-returned-values", path, fmt.Sprintf("Read() returned %d values for a %s dataset for which no float64 read is defined", len(d.Read), s.Type)})
 		}
@@ -479,4 +528,40 @@ func visibleParent(m *Model, f *obs.File, p string) bool {
 func isRevisit(m *Model, p string) bool {
 	o := m.Resolve(p)
 	return o != nil && o.NLinks > 1
+}
+
+// chunksOf lists the scaled coordinates of every chunk that intersects dims (nil when there are more than 4096 or the
+// chunk shape does not fit the rank).
+func chunksOf(dims, chunk []uint64) [][]uint64 {
+	if len(chunk) != len(dims) || len(dims) == 0 {
+		return nil
+	}
+	n := make([]uint64, len(dims))
+	total := uint64(1)
+	for i := range dims {
+		if chunk[i] == 0 || dims[i] == 0 {
+			return nil
+		}
+		n[i] = (dims[i] + chunk[i] - 1) / chunk[i]
+		total *= n[i]
+		if total > 4096 {
+			return nil
+		}
+	}
+	out := make([][]uint64, 0, total)
+	cur := make([]uint64, len(dims))
+	for {
+		out = append(out, append([]uint64{}, cur...))
+		i := len(dims) - 1
+		for ; i >= 0; i-- {
+			cur[i]++
+			if cur[i] < n[i] {
+				break
+			}
+			cur[i] = 0
+		}
+		if i < 0 {
+			return out
+		}
+	}
 }
